@@ -274,6 +274,7 @@ type Interp struct {
 	rb         map[int]float64
 	rocTab     map[*Value][][2]*Term
 	ntpTab     map[int]*StructV
+	nowSecs    []*Term
 	monDiffs   []*Term // visibility conditions of writes into monitored buffers
 	ntpVars    map[int]*Term
 }
@@ -364,6 +365,7 @@ func (in *Interp) runPath(prefix []decision) {
 	in.rb = nil
 	in.rocTab = nil
 	in.ntpTab = nil
+	in.nowSecs = nil
 	in.monDiffs = nil
 	in.ntpVars = nil
 	in.nowSeq = 0
